@@ -1,7 +1,7 @@
 /-
 C11 — Python ranges and python_version markers convert into each other exactly.
 Property theorems only (helper lemmas in Proofs/PyConvText.lean, PyConvMarker.lean, PyConvSem.lean,
-PyConvRange.lean, PyConvNorm.lean, PyConvGpc.lean).
+PyConvRange.lean, PyConvNorm.lean, PyConvGpc.lean, PyConvPoetry.lean).
 
 Vocabulary.  `EnvPy E X Y Z`: the environment `E` has `python_version = "X.Y"` and
 `python_full_version = "X.Y.Z"` (all of `X Y Z : Nat`, unbounded); `pyV X Y Z` is the version `X.Y.Z`.
@@ -12,6 +12,7 @@ after the grammar recogniser `parseText`) of a marker text, the empty text being
 -/
 import PoetryVerif.Proofs.PyConvNorm
 import PoetryVerif.Proofs.PyConvGpc
+import PoetryVerif.Proofs.PyConvPoetry
 import PoetryVerif.Proofs.VRangeOps
 import PoetryVerif.Proofs.MarkerProj
 
@@ -27,8 +28,6 @@ def refEval (E : Env) (txt : String) : Option Bool :=
   else match parseText txt with
     | .ok syn => evalSyn E syn
     | .error _ => none
-
-theorem parseText_empty : parseText "" = .error .syntax := rfl
 
 /-- CPython 3.8.1 -/
 def env381 : Env := ⟨[("python_version", "3.8"), ("python_full_version", "3.8.1")], some []⟩
@@ -46,7 +45,7 @@ exclusive × precision 1, 2, 3 × lower or upper bound). -/
 theorem nestedRC_exact (E : Env) (rc : RC) (hd : PyDom rc = true) (X Y Z : Nat) (hE : EnvPy E X Y Z) :
     ∃ syn, parseText (nestedRC "python_version" rc) = .ok syn ∧
       evalSyn E syn = some (rc.allows (pyV X Y Z)) := by
-  obtain ⟨syn, _, hp, he⟩ := nestedRC_conj E rc hd X Y Z hE
+  obtain ⟨syn, _, hp, he, _⟩ := nestedRC_conj E rc hd X Y Z hE
   exact ⟨syn, hp, he⟩
 
 /-- `>3.8,<=3.10` is in the domain: printed `python_full_version > "3.8.0" and python_full_version <= "3.10.0"` -/
@@ -70,51 +69,17 @@ theorem counterexample_single_version_precision_lt_3 :
   · rw [ht]; rfl
   · simp only [evalSyn, evalSynAcc, evalAtom]; decide
 
-/-- the domain of a whole constraint: the universal range, one range constraint, or a union of them -/
-def PyDomVC : VC → Bool
-  | .empty => false
-  | .single rc => rc.isAny || PyDom rc
-  | .union rs => !rs.isEmpty && rs.all PyDom
-
 /-- **`create_nested_marker` is exact**: for the universal range (empty text), one range constraint, and
-unions (`(…) or (…)`), the reference value of the printed text on interpreter `X.Y.Z` is membership of
+unions (`(…) or (…)`) — `PyDomVC` — the reference value of the printed text on interpreter `X.Y.Z` is membership of
 `X.Y.Z` (for a union: in one of its members, `VC.allowsPlain`). -/
 theorem createNested_exact (E : Env) (c : VC) (hd : PyDomVC c = true) (X Y Z : Nat) (hE : EnvPy E X Y Z) :
     ∃ txt, createNestedMarker "python_version" c = .ok txt ∧
       refEval E txt = some (c.allowsPlain (pyV X Y Z)) := by
-  cases c with
-  | empty => simp [PyDomVC] at hd
-  | single rc =>
-    by_cases ha : rc.isAny = true
-    · refine ⟨"", by simp [createNestedMarker, VC.isAny, ha], ?_⟩
-      cases rc with
-      | ver x => simp [RC.isAny] at ha
-      | rng r =>
-        simp only [RC.isAny, VRange.isAny, Bool.and_eq_true, Option.isNone_iff_eq_none] at ha
-        simp [refEval, VC.allowsPlain, VC.flatten, RC.allows, VRange.allows, VRange.allowsLo, VRange.allowsHi, ha.1, ha.2]
-    · have hd' : PyDom rc = true := by simpa [PyDomVC, ha] using hd
-      obtain ⟨syn, hc, hp, he⟩ := nestedRC_conj E rc hd' X Y Z hE
-      refine ⟨nestedRC "python_version" rc, by simp [createNestedMarker, VC.isAny, ha], ?_⟩
-      have hne : (nestedRC "python_version" rc).isEmpty = false := by
-        cases h : (nestedRC "python_version" rc).isEmpty with
-        | false => rfl
-        | true =>
-          have : nestedRC "python_version" rc = "" := by simpa [String.isEmpty_iff] using h
-          rw [this] at hp; exact absurd hp (by simp [parseText_empty])
-      simp [refEval, hne, hp, he, VC.allowsPlain, VC.flatten]
-  | union rs =>
-    simp only [PyDomVC, Bool.and_eq_true, Bool.not_eq_true', List.isEmpty_eq_false_iff, List.all_eq_true] at hd
-    obtain ⟨syn, hp, he⟩ := nestedUnion_exact E rs hd.1 hd.2 X Y Z hE
-    refine ⟨joinWith " or " (rs.map (fun rc => "(" ++ (if rc.isAny then "" else nestedRC "python_version" rc) ++ ")")),
-      by simp [createNestedMarker, VC.isAny], ?_⟩
-    have hne : (joinWith " or " (rs.map (fun rc => "(" ++ (if rc.isAny then "" else nestedRC "python_version" rc) ++ ")"))).isEmpty = false := by
-      cases h : (joinWith " or " (rs.map (fun rc => "(" ++ (if rc.isAny then "" else nestedRC "python_version" rc) ++ ")"))).isEmpty with
-      | false => rfl
-      | true =>
-        have : joinWith " or " (rs.map (fun rc => "(" ++ (if rc.isAny then "" else nestedRC "python_version" rc) ++ ")")) = "" := by
-          simpa [String.isEmpty_iff] using h
-        rw [this] at hp; exact absurd hp (by simp [parseText_empty])
-    simp [refEval, hne, hp, he, VC.allowsPlain, VC.flatten]
+  obtain ⟨txt, ht, hcase⟩ := createNested_syn E c hd X Y Z hE
+  refine ⟨txt, ht, ?_⟩
+  rcases hcase with ⟨rfl, hall⟩ | ⟨hne, syn, hp, he, _⟩
+  · simp [refEval, hall]
+  · simp [refEval, hne, hp, he]
 
 /-- `~2.7 || >=3.4`: a union in the domain -/
 example : PyDomVC (.union [.rng ⟨some (v [2, 7]), some (v [2, 8]), true, false⟩, .rng ⟨some (v [3, 4]), none, true, false⟩]) = true := by
@@ -281,64 +246,22 @@ def C11_pyConstraint_upper_full_statement : Prop :=
 
 /-! ## the same through poetry's own `parse_marker` and evaluation -/
 
-/-- C06's compaction agreement, as used here: the sub-markers `parse_marker` builds from a syntax tree
-(`_compact_markers`) satisfy the leaf invariant, and their disjunction has the reference value of the tree
-(leaf truth `ev` taken on the environment `E`). -/
-def CompactAgree (E : Env) (ev : Leaf → Bool) (G : Leaf → Prop) : Prop :=
-  ∀ syn subs b, compactSubMarkers syn = .ok subs → evalSyn E syn = some b →
-    M.GoodAll G subs ∧ M.semAny ev subs = b
+/-- **`create_nested_marker` then poetry's own `parse_marker` and `validate`**: the marker object validates, on
+the environment of interpreter `X.Y.Z`, to exactly `allows(X.Y.Z)`.  Used as proved: C06's leaf agreement for
+python items and compaction agreement (restated for `compactSubMarkers` / `M.sem (leafEval E)` in
+`compactSub_agree`), C07's `union` soundness and `M.validate_eq_sem`.  The one hypothesis: the leaf specification
+`LeafSpec (leafEval E) (CompLeaf E)` — marker equality and `_merge_single_markers` respect truth on coherent,
+evaluable single markers (C07's `MergeSound` obligation for python leaves). -/
+theorem createNested_poetry_partial (E : Env) (S : LeafSpec (leafEval E) (CompLeaf E)) (c : VC)
+    (hd : PyDomVC c = true) (X Y Z : Nat) (hE : EnvPy E X Y Z) (txt : String) (m : M)
+    (ht : createNestedMarker "python_version" c = .ok txt) (hm : parseMarker txt = .ok m) :
+    M.Good (CompLeaf E) m ∧ M.sem (leafEval E) m = c.allowsPlain (pyV X Y Z) ∧
+      M.validate E m = .ok (c.allowsPlain (pyV X Y Z)) :=
+  createNested_poetry E S c hd X Y Z hE txt m ht hm
 
-/-- a text with a reference value is read by `parse_marker` as a marker with that truth (C07's `union`
-soundness, proved; C06's compaction agreement as hypothesis) -/
-theorem parseMarker_sem {E : Env} {ev : Leaf → Bool} {G : Leaf → Prop} (S : LeafSpec ev G)
-    (hC : CompactAgree E ev G) (txt : String) (b : Bool) (m : M)
-    (hr : refEval E txt = some b) (hm : parseMarker txt = .ok m) : M.Good G m ∧ M.sem ev m = b := by
-  unfold refEval at hr
-  by_cases he : txt.isEmpty = true
-  · simp only [he, if_true, Option.some.injEq] at hr
-    have : txt = "" := by simpa [String.isEmpty_iff] using he
-    subst this
-    simp [parseMarker] at hm
-    subst hm; subst hr; simp
-  · simp only [he, if_false] at hr
-    cases hp : parseText txt with
-    | error e => simp [hp] at hr
-    | ok syn =>
-      simp only [hp] at hr
-      have h1 : (txt == "<empty>") = false := by
-        cases h : txt == "<empty>" with
-        | false => rfl
-        | true =>
-          have : txt = "<empty>" := by simpa using h
-          subst this
-          have : parseText "<empty>" = .error .syntax := rfl
-          rw [this] at hp; cases hp
-      have h2 : (txt == "*") = false := by
-        cases h : txt == "*" with
-        | false => rfl
-        | true =>
-          have : txt = "*" := by simpa using h
-          subst this
-          have : parseText "*" = .error .syntax := rfl
-          rw [this] at hp; cases hp
-      have he' : txt.isEmpty = false := by simpa using he
-      simp only [parseMarker, h1, he', h2, Bool.false_eq_true, if_false, Bool.or_false, hp, bind, Except.bind] at hm
-      split at hm
-      · cases hm
-      · rename_i subs hs
-        have hc := hC syn subs b hs hr
-        have := unionF_sound S hc.1 hm
-        exact ⟨this.1, by rw [this.2, hc.2]⟩
-
-/-- **`create_nested_marker` then poetry's own `parse_marker`**: the marker object holds on the environment
-of interpreter `X.Y.Z` exactly when the range admits `X.Y.Z`. -/
-theorem createNested_poetry_partial {E : Env} {ev : Leaf → Bool} {G : Leaf → Prop} (S : LeafSpec ev G)
-    (hC : CompactAgree E ev G) (c : VC) (hd : PyDomVC c = true) (X Y Z : Nat) (hE : EnvPy E X Y Z)
-    (txt : String) (m : M) (ht : createNestedMarker "python_version" c = .ok txt)
-    (hm : parseMarker txt = .ok m) : M.Good G m ∧ M.sem ev m = c.allowsPlain (pyV X Y Z) := by
-  obtain ⟨txt', ht', hr⟩ := createNested_exact E c hd X Y Z hE
-  rw [ht] at ht'; injection ht' with ht'; subst ht'
-  exact parseMarker_sem S hC txt _ m hr hm
+/-- the invariant is inhabited by what the parser builds: `python_version >= "3.8"` on CPython 3.8.1 -/
+example : CompLeaf env381 (.single ⟨"python_version", ">=", "3.8", false, .ver (.single (.rng ⟨some (v [3, 8]), none, true, false⟩))⟩) :=
+  ⟨_, rfl, by rfl, true, by rfl⟩
 
 def C11_createNested_poetry_full_statement : Prop :=
   ∀ (E : Env) (c : VC) (X Y Z : Nat) (txt : String) (m : M), PyDomVC c = true → EnvPy E X Y Z →
